@@ -3,8 +3,18 @@ CONFIG = {
     "driver": "c10_driver.ml",
     "model_module": "c10_model",
     "level": "proof",
-    "level_text": "TODO",
-    "level_note": "TODO",
-    "trusted_base": [],
-    "assumptions": [],
+    "level_text": "Theorems glyph_i_is_original, closure_minimal_and_closed, cmap_exact, kerning_commutes, ligatures_commute, encoding_transferred, cff_subset_glyph_i_is_original (Coq, no axioms) about M_subset, a step-by-step model of (*Font).Subset over abstract fonts (glyph records with outline id / width / name / CID / FD, composite reference lists, cmap subtables, built-in encoding, GSUB 1.1/4.1 rules, GPOS 2.1 pairs, private dicts and matrices per FD): for every well-formed abstract font, every duplicate-free glyph list and every map-iteration order the model returns a subset whose glyph i is the original glyph listed at i, whose appended glyphs are exactly the least set closed under substitution rules and then composite components, whose composite references point to the new glyph carrying the original component, whose cmap maps c to k iff c mapped to the glyph listed at k, and on which kerning and substitution lookups (same lookup indices) commute with renumbering on all sequences of listed or rule-produced glyphs. The nMissing-counter loop of SubsetGsub and the worklist of SubsetGlyf are modelled with fuel and proved to terminate. The model is tied to subset.go / cff/subset.go by running the real Subset and the extracted model (and the independent executable specification S_subset) on generated fonts and comparing canonical observations; a Go oracle states the clauses on the real fonts with the real shaping engine and Write/Read.",
+    "level_note": "Trusted: Coq kernel, extraction (ExtrOcamlBasic), the Go harness (font builder, projection to the abstract font, canonicaliser, oracle). The Go code is modelled (C10/Model.v mirrors the repaired subset.go), not verified. Outlines, private dictionaries and matrices are opaque ids; Write/Read of the subset is checked by the oracle only (open finding: CFF built-in encoding with a gap). 'Retained' is read as 'listed' for the cmap and as 'listed or produced by a substitution rule' for kerning/ligatures: the code builds the cmap before and GSUB/GPOS between the two closures (Examples.v: cmap_covers_extras_refuted, rules_after_components_refuted).",
+    "trusted_base": [
+        "modelled, not verified: subset.go (Subset, getNewGid, retained, SubsetCMap, SubsetGsub steps 1-3, SubsetGpos, SubsetCFF, SubsetGlyf, pop), cff/subset.go (Outlines.Subset), glyf/composite.go (Components, FixComponents) as C10/Model.v; tied by running the real code and the extracted model on the same abstract fonts and glyph lists",
+        "harness projection *sfnt.Font <-> abstract font (harness/c10/build.go): outline ids are stored inside the real outlines; every case line is checked to be a fixed point of build/project",
+        "Go map iteration order is an explicit oracle argument of the model; all theorems quantify over it; the compared observation is order-independent (extras and maps sorted by original glyph id)",
+        "cmap subtable encode/decode (format 4/12), GSUB/GPOS/CFF/glyf binary codecs and the shaping engine used by the oracle are the subjects of C09, C08, C13, C11, C06/C07",
+    ],
+    "assumptions": [
+        "fonts carry only layout data the subsetter declares supported (GSUB 1.1/4.1, GPOS 2.1, no GDEF; at least one lookup per table), cmap subtables of format 4 or 12, at most 65536 glyphs, references in range (wf_fontb)",
+        "glyph lists are duplicate-free lists of glyphs of the font (wf_listb); 'starts with glyph 0' is needed by no theorem",
+    ],
+    "coq_timeout": 900,
+    "gen_timeout": 1800,
 }
